@@ -192,8 +192,15 @@ def _gen_config_tree(rnd, ndst, profile):
     r = rnd.random()
     if ndst == 1 and r < 0.3:
         feats['data-stream-type-id-field-type'] = False
-    elif r < 0.7:
+    elif r < 0.55:
         feats['data-stream-type-id-field-type'] = gen_feature_uint(rnd, dst_bits)
+    elif r < 0.7:
+        # exactly wide enough — or one bit short, which barectf must refuse (the generator then draws again)
+        sz = max(1, dst_bits - (1 if rnd.random() < 0.3 else 0))
+        ft = {'class': rnd.choice(['uint', 'uenum']), 'size': sz, 'alignment': rnd.choice([1, 8])}
+        if ft['class'] == 'uenum':
+            ft['mappings'] = {'ALL': [[0, (1 << sz) - 1]]}
+        feats['data-stream-type-id-field-type'] = ft
     if feats:
         tt['$features'] = feats
     clock_names = []
